@@ -234,7 +234,9 @@ def jobs(tier):
     q = tier == "quick"
     out = []
     # (a computation without neighbours never receives anything, hence never changes round: not in the alphabet)
-    for n in (2, 3) if q else (2, 3, 4):
+    # 4-node graphs were part of the thorough tier, but their explorations (about 35 s each, > 10 core-hours in all) could not be
+    # run to completion within the build budget: the thorough tier is every plan of every 2-3 node graph
+    for n in (2, 3):
         for g in connected_graphs(n):
             for i, plan in enumerate(plans(g, tier)):
                 rounds = R if n <= 3 else 2
